@@ -1272,6 +1272,21 @@ class Spec(object):
             return self.call_func(f, args, kw, node)
         if isinstance(f, ClassRef):
             init = f.lookup("__init__")
+            if f.name in getattr(self, "record_classes", ()) and not isinstance(init, FuncRef):
+                # a NamedTuple-style record class (annotated fields, no __init__), on request built as an object whose attributes are the fields
+                inst = Instance(f)
+                fields_ = [(a_.target.id, a_.value) for a_ in f.node.body if isinstance(a_, ast.AnnAssign) and isinstance(a_.target, ast.Name)]
+                for i_, (fn_, dv_) in enumerate(fields_):
+                    if i_ < len(args):
+                        inst.attrs[fn_] = args[i_]
+                    elif fn_ in kw:
+                        inst.attrs[fn_] = kw[fn_]
+                    else:
+                        try:
+                            inst.attrs[fn_] = ast.literal_eval(dv_) if dv_ is not None else Top("unset field %s" % fn_)
+                        except Exception:
+                            inst.attrs[fn_] = Top("default of %s" % fn_)
+                return inst
             if f.qualname in self.opaque_funcs or not isinstance(init, FuncRef):
                 self.effect("new", f.qualname, tuple(args), tuple(sorted(kw.items())), node=node)
                 return Op("new", f.name, tuple(sorted(kw.items(), key=lambda t: t[0])), *args)
